@@ -52,7 +52,7 @@ class IOOpsMixin:
             st = dict(self.sc["worlds"][client]["static"])
             st["int_cols"] = [False] * len(st["int_cols"])
             in_text = W.static_text(st)
-            path = os.path.join(self._cwd_of(client), "_float_copy.dat")
+            path = os.path.join(self._cwd_of(client), f"_float_copy_{client}_{i}.dat")
             S.write_text(path, in_text)
             self.driver_writes = getattr(self, "driver_writes", set()) | {os.path.relpath(path, self.root)}
         args = ["fill", "-s", op["system"]] + list(op.get("flags", [])) + [path]
@@ -116,7 +116,7 @@ class IOOpsMixin:
         the symmetry-filled parse of its input; header lines, volumes and lattice block preserved."""
         from cij.io.traditional.elast_dat import read_elast_data, apply_symetry_on_elast_data
         cwd = self._cwd_of(client)
-        pin, pout = os.path.join(cwd, "_rt_in.dat"), os.path.join(cwd, "_rt_out.dat")
+        pin, pout = os.path.join(cwd, f"_rt_in_{client}_{i}.dat"), os.path.join(cwd, f"_rt_out_{client}_{i}.dat")
         saved = self.seams.ctx.client
         self.seams.ctx.client = None
         try:
@@ -125,6 +125,8 @@ class IOOpsMixin:
             try:
                 parsed_out = read_elast_data(pout)
             except Exception as e:
+                if self._injected_now() or "injected" in str(e):
+                    raise           # a still-armed injected fault went off inside the oracle's own use of the reader: the fault's failure, not cij's
                 self.verdict("O-round", "C17", client, i, f"output of `cij fill -s {op['system']}` cannot be read back as a static table: {type(e).__name__}: {e}")
                 return
             ref = read_elast_data(pin)
@@ -435,7 +437,7 @@ class IOOpsMixin:
             raise
         if "O-round" in self.oracles and truth is not None:
             if prec is None:
-                oracles_io.check_qha_input(self, client, i, data, truth, "read_energy(input file)")
+                oracles_io.check_qha_input(self, client, i, data, truth, "read_energy(input file)", rel=4e-16)
             else:
                 # written precision: 6 decimals for P, V, E, frequencies, weights; 4 for volume-block coordinates
                 ok = oracles_io.check_qha_input(self, client, i, data, truth, f"write_energy -> read_energy({op['path']})",
